@@ -48,7 +48,7 @@ LEVEL = "proof"
 RULE = ("per commandable class: all presentValue command sequences up to length 4 (quick) / 5 (thorough) over "
         "4 priorities (None, 16 and two seed-chosen ones) x 3 values (2 for BinaryPV) x {write, relinquish}, "
         "directly; up to length 3 / 4 as WriteProperty/ReadProperty APDUs (quick tier: per (datatype, mix-in) group "
-        "one class gets full depth either directly or as APDUs, alternating between groups and with the seed, "
+        "one class gets full depth directly, or as APDUs, or neither, rotating over the groups with the seed, "
         "everything else one command less; thorough: full depth both ways for all 20); random length-100 histories over "
         "None + 1..16 with refused commands mixed in, both ways; min on/off times 0..10 s with clock movements. "
         "distinct = distinct (stream kind, class family, tuple of model branch classes of the last <=3 steps) "
@@ -387,15 +387,19 @@ class Wire(Direct):
         self.invoke = (self.invoke + 1) % 256
         req.apduInvokeID = self.invoke
         req.pduSource = Address(5)
-        x = ConfirmedRequestPDU()
-        req.encode(x)
-        x.apduMaxSegs = 0        # header codes: unspecified segments, 1024 octets
-        x.apduMaxResp = 4
-        a = APDU()
-        x.encode(a)
-        p = PDU()
-        a.encode(p)
-        octets = bytes(p.pduData)
+        try:
+            x = ConfirmedRequestPDU()
+            req.encode(x)
+            x.apduMaxSegs = 0        # header codes: unspecified segments, 1024 octets
+            x.apduMaxResp = 4
+            a = APDU()
+            x.encode(a)
+            p = PDU()
+            a.encode(p)
+            octets = bytes(p.pduData)
+        except Exception as e:
+            # the request cannot be put on the wire at all (e.g. an Integer beyond 32 bits)
+            return ("unencodable:" + type(e).__name__, None)
         # what the server side of the stack does with the octets
         b = APDU()
         b.decode(PDU(octets, source=Address(5)))
@@ -449,17 +453,20 @@ class Wire(Direct):
         if pr is not None:
             req.priority = pr
         req.propertyValue = Any()
-        if code is None:
-            req.propertyValue.cast_in(Null())
-        elif code == BAD_TYPE:
-            w = ci["wrong"]
-            req.propertyValue.cast_in(CharacterString(w) if isinstance(w, str) else
-                                      Real(w) if isinstance(w, float) else Unsigned(w))
-        elif code == BAD_ENUM:
-            req.propertyValue.cast_in(Enumerated(77))
-        else:
-            v = pyval(ci, code)
-            req.propertyValue.cast_in(v if not ci["meta"]["atomic"] else ci["dt"](v))
+        try:
+            if code is None:
+                req.propertyValue.cast_in(Null())
+            elif code == BAD_TYPE:
+                w = ci["wrong"]
+                req.propertyValue.cast_in(CharacterString(w) if isinstance(w, str) else
+                                          Real(w) if isinstance(w, float) else Unsigned(w))
+            elif code == BAD_ENUM:
+                req.propertyValue.cast_in(Enumerated(77))
+            else:
+                v = pyval(ci, code)
+                req.propertyValue.cast_in(v if not ci["meta"]["atomic"] else ci["dt"](v))
+        except Exception as e:
+            return "unencodable:" + type(e).__name__
         err, r = self._roundtrip(req)
         return err if err else self._outcome(r)
 
@@ -826,8 +833,8 @@ def alphabet(ctx, ci):
 
 
 def exh(ctx, kind, cname, maxlen, first=None):
-    """all command sequences of length <= maxlen (those starting with command number
-    `first`, or only the empty one when first is None), each on a FRESH object.
+    """all command sequences of length <= maxlen (first = None), or the part of them
+    starting with command number `first` (first = -1: the empty one), each on a FRESH object.
     The object is read back after the last command only: every prefix of a sequence
     is itself a sequence of the set, so every intermediate state is read as well."""
     ci = env()["classes"][cname]
@@ -845,6 +852,8 @@ def exh(ctx, kind, cname, maxlen, first=None):
                          "events": [["w", "pv", vv, None, pp] for pp, vv in seq]},
                      what, cls=cname, access=kind, **f)
     if first is None:
+        seqs = (tail for L in range(0, maxlen + 1) for tail in itertools.product(cmds, repeat=L))
+    elif first < 0:
         seqs = [()]
     else:
         seqs = ((cmds[first],) + tail for L in range(1, maxlen + 1)
@@ -902,6 +911,8 @@ def exh(ctx, kind, cname, maxlen, first=None):
 # ---------------------------------------------------------------- random histories
 
 BAD_PRIOS = [0, 17, -1, 255, 2 ** 31, 18, -16]
+# in an APDU the priority is an Integer: stay inside what can be encoded (32 bits)
+BAD_PRIOS_WIRE = [0, 17, -1, 255, 2 ** 31 - 1, 18, -16, -(2 ** 31)]
 
 
 def gen_random(rng, ci, n, timed=False, avoid6=False, wire=False):
@@ -911,6 +922,7 @@ def gen_random(rng, ci, n, timed=False, avoid6=False, wire=False):
     evs = []
     nv = ci["nvals"]
     t = 0
+    bad_prios = BAD_PRIOS_WIRE if wire else BAD_PRIOS
     for _ in range(n):
         r = rng.random()
         if timed and r < 0.35:
@@ -927,7 +939,7 @@ def gen_random(rng, ci, n, timed=False, avoid6=False, wire=False):
             evs.append(("w", "pv", v, None if wire else rng.choice([None, None, None, 3]), p))
         elif r < 0.88:
             v = None if rng.random() < 0.3 else rng.randrange(nv)
-            evs.append(("w", "pv", v, None, rng.choice(BAD_PRIOS)))
+            evs.append(("w", "pv", v, None, rng.choice(bad_prios)))
         elif r < 0.92:
             # array-index access of priorityArray itself: only refusals and relinquishes
             # are expressible both directly and in an APDU
@@ -943,7 +955,7 @@ def gen_random(rng, ci, n, timed=False, avoid6=False, wire=False):
                 evs.append(("w", "pv", BAD_ENUM, None, rng.randrange(1, 17)))
             else:
                 # (in an APDU the value is examined before the priority: keep the priority valid there)
-                evs.append(("w", "pv", BAD_TYPE, None, rng.randrange(1, 17) if wire else rng.choice(BAD_PRIOS)))
+                evs.append(("w", "pv", BAD_TYPE, None, rng.randrange(1, 17) if wire else rng.choice(bad_prios)))
     return evs
 
 
@@ -1154,27 +1166,31 @@ def run(ctx):
     for cname in e["names"]:
         ci = e["classes"][cname]
         _, cmds = alphabet(ctx, ci)
-        # split by first command; the piece with first=None covers lengths 0 only
-        specs.append(("exh", "direct", cname, 0, None))
-        specs.append(("exh", "wire", cname, 0, None))
-        # quick tier: the longest APDU sequences for one class of every
-        # (datatype, mix-in) group, one command shorter for its siblings
+        # quick tier: full depth only for one class of every (datatype, mix-in)
+        # group, one command shorter for its siblings
         grp = (ci["meta"]["datatype"], ci["meta"]["minOnOff"])
         full = not ctx.quick or grp not in seen_groups
         ld, lw = (L, LW) if full else (L - 1, LW - 1)
         if ctx.quick and full:
-            # ... and full depth alternates between the groups with the seed: even
-            # groups get the longest direct sequences on even seeds and the longest
-            # APDU sequences on odd seeds, odd groups the other way round
-            if (len(seen_groups) + ctx.seed) % 2:
-                lw = LW - 1
-            else:
+            # ... and full depth rotates over the groups with the seed: a third of
+            # them gets the longest direct sequences, another third the longest APDU
+            # sequences, the rest one command less both ways (seeds 0, 1, 2 together
+            # give every group both)
+            r = (len(seen_groups) + ctx.seed) % 3
+            if r != 0:
                 ld = L - 1
+            if r != 1:
+                lw = LW - 1
         seen_groups.add(grp)
         wire_len[cname] = [ld, lw]
-        for f in range(len(cmds)):
-            specs.append(("exh", "direct", cname, ld, f))
-            specs.append(("exh", "wire", cname, lw, f))
+        # heavy pieces are split by their first command, light ones stay whole
+        for kind, ln, heavy in (("direct", ld, ld >= 4), ("wire", lw, lw >= 3)):
+            if heavy:
+                specs.append(("exh", kind, cname, 0, -1))
+                for f in range(len(cmds)):
+                    specs.append(("exh", kind, cname, ln, f))
+            else:
+                specs.append(("exh", kind, cname, ln, None))
         nrand = 2 if ctx.quick else 12
         for i in range(nrand):
             specs.append(("rand", cname, "direct", i, 100))
